@@ -201,10 +201,18 @@ def check_trig(fmt, xb, outs):
         dist = abs(oa - ob)
         tol = 10 if fmt == "float16" else 1
         if dist > tol:
-            # the unchanged tree exceeds the bound at hard cases (x next to a multiple of pi/2, top of the domain) by up to
-            # this many ULP (known finding); anything worse is a different violation
+            # The unchanged tree exceeds the bound only where the multiword 2/pi is exhausted: when the remainder is
+            # c = log2(|x| / |remainder|) bits below x, the error is about 2^(c - C0) ULP (measured: C0 = 13.6 for
+            # float16, 125.2 for float32; nothing in float64).  That envelope is the known finding; an error that the
+            # cancellation does not explain is a different violation.
+            c = float(mpmath.log(abs(xm) / abs(rem), 2)) if rem != 0 else float("inf")
+            C0 = {"float16": 13.0, "float32": 124.5}.get(fmt)
             cap = {"float16": 1024, "float32": 128, "float64": 1}[fmt]
-            return f"remainder off by more than {tol} ULP ({'<=' if dist <= cap else '>'} {cap}): {dist} ULP"
+            import math
+            if C0 is not None and dist <= cap and math.log2(dist) <= c - C0:
+                return (f"remainder off by more than {tol} ULP where the multiword 2/pi is exhausted (log2 error <= cancellation bits - {C0}; <= {cap} ULP): "
+                        f"{dist} ULP at {c:.1f} cancellation bits")
+            return f"remainder off by more than {tol} ULP, not explained by cancellation: {dist} ULP at {c:.1f} cancellation bits"
     return None
 
 
